@@ -58,13 +58,17 @@ type fbRec struct{ r *recorder }
 func (r runRec) ev(k string, t time.Time, d time.Duration) {
 	r.r.log = append(r.r.log, fmt.Sprintf("run:%s@%d+%d", k, off(t), int64(d)))
 }
-func (r runRec) Success(_ context.Context, t time.Time, d time.Duration)       { r.ev("success", t, d) }
-func (r runRec) ErrFailure(_ context.Context, t time.Time, d time.Duration)    { r.ev("failure", t, d) }
-func (r runRec) ErrTimeout(_ context.Context, t time.Time, d time.Duration)    { r.ev("timeout", t, d) }
-func (r runRec) ErrBadRequest(_ context.Context, t time.Time, d time.Duration) { r.ev("badrequest", t, d) }
-func (r runRec) ErrInterrupt(_ context.Context, t time.Time, d time.Duration)  { r.ev("interrupt", t, d) }
-func (r runRec) ErrConcurrencyLimitReject(_ context.Context, t time.Time)      { r.ev("reject", t, 0) }
-func (r runRec) ErrShortCircuit(_ context.Context, t time.Time)                { r.ev("shortcircuit", t, 0) }
+func (r runRec) Success(_ context.Context, t time.Time, d time.Duration)    { r.ev("success", t, d) }
+func (r runRec) ErrFailure(_ context.Context, t time.Time, d time.Duration) { r.ev("failure", t, d) }
+func (r runRec) ErrTimeout(_ context.Context, t time.Time, d time.Duration) { r.ev("timeout", t, d) }
+func (r runRec) ErrBadRequest(_ context.Context, t time.Time, d time.Duration) {
+	r.ev("badrequest", t, d)
+}
+func (r runRec) ErrInterrupt(_ context.Context, t time.Time, d time.Duration) {
+	r.ev("interrupt", t, d)
+}
+func (r runRec) ErrConcurrencyLimitReject(_ context.Context, t time.Time) { r.ev("reject", t, 0) }
+func (r runRec) ErrShortCircuit(_ context.Context, t time.Time)           { r.ev("shortcircuit", t, 0) }
 func (r runRec) Opened(_ context.Context, t time.Time) {
 	r.r.log = append(r.r.log, fmt.Sprintf("opened@%d", off(t)))
 }
@@ -176,7 +180,7 @@ type cenv struct {
 	callbacks []func()
 	ocfg      hystrix.ConfigureOpener
 	ccfg      hystrix.ConfigureCloser
-	passthru  bool // a nil or zero-value circuit: nothing but Execute / Run / Go may be asked of it
+	passthru  bool             // a nil or zero-value circuit: nothing but Execute / Run / Go may be asked of it
 	sib       *circuit.Circuit // a sibling built from the SAME config value (same factory function values), own clock
 }
 
@@ -265,7 +269,10 @@ func newCenvWith(h map[string]string, mgr *circuit.Manager) *cenv {
 	case "hystrix":
 		e.ccfg = hystrix.ConfigureCloser{SleepWindow: time.Duration(getI(h, "c_sleep", 5_000_000_000)), HalfOpenAttempts: getI(h, "c_half", 1),
 			RequiredConcurrentSuccessful: getI(h, "c_req", 1),
-			AfterFunc: func(d time.Duration, f func()) *time.Timer { e.callbacks = append(e.callbacks, f); return sleepingTimer() }}
+			AfterFunc: func(d time.Duration, f func()) *time.Timer {
+				e.callbacks = append(e.callbacks, f)
+				return sleepingTimer()
+			}}
 		// likewise the closer: probe budget and required successes factory-wide, window and timer hook per circuit
 		chf := hystrix.Factory{
 			ConfigureCloser: hystrix.ConfigureCloser{HalfOpenAttempts: e.ccfg.HalfOpenAttempts, RequiredConcurrentSuccessful: e.ccfg.RequiredConcurrentSuccessful},
